@@ -37,7 +37,7 @@ def init_grid_cases(shard, nshards):
                                                "deliv": tok.DELIVS[(g + ti) % 3]}
 
 
-REUSE_HOWS = ("list", ["gen", 0], ["gen", 1], ["two_gens"])
+REUSE_HOWS = ("list", ["gen", 0], ["gen", 1], ["two_gens"], ["close_mid", 0, 1], ["close_mid", 1, 1], ["close_mid", 1, 2])
 
 
 def reuse_cases(shard, nshards, M, Lpre, Lmain, inits=((0, 0),)):
@@ -57,7 +57,7 @@ def reuse_cases(shard, nshards, M, Lpre, Lmain, inits=((0, 0),)):
                         for w in range(1 << nm):
                             yield {"pat": format(w, f"0{nm}b"), "p": p, "pre": {"pat": pre, "how": how},
                                    "kind": tok.KINDS[(v + w) % len(tok.KINDS)],
-                                   "deliv": "gen" if how[0] == "two_gens" else tok.DELIVS[(w + hi) % 3]}
+                                   "deliv": "gen" if how[0] in ("two_gens", "close_mid") else tok.DELIVS[(w + hi) % 3]}
 
 
 def reuse_jobs(tier, nshards=16):
